@@ -526,7 +526,25 @@ pub fn discarded_ops(out: &mut Out, rng: &mut Rng, kit: &Kit, s: &Subject, name:
 	};
 	for _ in 0..(1 + rng.below(2)) {
 		let max_below = (path.len() - 1).min(3);
-		let below = if rng.chance(1, 8) { rng.below(path.len() as u64) as usize } else { rng.below(max_below as u64 + 1) as usize };
+		// rewinds over a range that creates as many outputs as it spends are preferred when there is one
+		let balanced_belows: Vec<usize> = (1..=max_below)
+			.filter(|below| {
+				let (mut c, mut sp) = (0usize, 0usize);
+				for b in &path[path.len() - below..] {
+					let (o, i) = shape(kit, *b);
+					c += o;
+					sp += i;
+				}
+				c == sp
+			})
+			.collect();
+		let below = if !balanced_belows.is_empty() && rng.chance(2, 3) {
+			*rng.pick(&balanced_belows)
+		} else if rng.chance(1, 8) {
+			rng.below(path.len() as u64) as usize
+		} else {
+			rng.below(max_below as u64 + 1) as usize
+		};
 		let anc = path[path.len() - 1 - below];
 		let hdr = kit.blks[anc].block.header.clone();
 		// an output of that header's block (its coinbase), or of an older one
@@ -564,4 +582,72 @@ pub fn discarded_ops(out: &mut Out, rng: &mut Rng, kit: &Kit, s: &Subject, name:
 	// for the model: the unspent set is still the replay of the head's path
 	out.line(&format!("chain obs {}", name), &after.0);
 	bitmap_oracle(out, kit, s, name, "after-discarded-extensions", stats);
+}
+
+// ---------------------------------------------------------------------------------------------
+// C08 at chain level: what compaction receives as "spent above the horizon".
+
+/// The bitmap `TxHashSet::compact` computes with `input_pos_to_rewind` (private in grin_chain),
+/// recomputed here over the node's own store exactly as that function does: from the head header
+/// down to - excluding - the horizon header (`head height - cut_through_horizon`, looked up by height
+/// as `Chain::compact` does), OR-ing `Batch::get_block_input_bitmap` of every block for which it
+/// answers. Returns (horizon block, sorted 1-based positions).
+pub fn protect_line(out: &mut Out, kit: &Kit, s: &Subject, name: &str, stats: &mut BTreeMap<String, u64>) {
+	let chain = s.c();
+	let head = match chain.head_header() {
+		Ok(h) => h,
+		Err(_) => return,
+	};
+	let hh = head.height.saturating_sub(grin_core::global::cut_through_horizon() as u64);
+	let horizon = match chain.get_header_by_height(hh) {
+		Ok(h) => h,
+		Err(_) => return,
+	};
+	let store = chain.store();
+	let batch = match store.batch() {
+		Ok(b) => b,
+		Err(_) => return,
+	};
+	let mut set: std::collections::BTreeSet<u32> = std::collections::BTreeSet::new();
+	let mut cur = head.clone();
+	let mut missing = 0u64;
+	while cur.height > horizon.height {
+		match batch.get_block_input_bitmap(&cur.hash()) {
+			Ok(bm) => {
+				for p in bm.iter() {
+					set.insert(p);
+				}
+			}
+			Err(_) => missing += 1,
+		}
+		cur = match batch.get_previous_header(&cur) {
+			Ok(h) => h,
+			Err(_) => break,
+		};
+	}
+	let l: Vec<String> = set.iter().map(|p| p.to_string()).collect();
+	out.line(&format!("chain protect {} hor={}", name, kit.bid(&horizon.hash())), &format!("[{}]", l.join(",")));
+	*stats.entry("protect:walks".into()).or_insert(0) += 1;
+	*stats.entry("protect:positions".into()).or_insert(0) += set.len() as u64;
+	*stats.entry("protect:blocks-without-spent-index-record".into()).or_insert(0) += missing;
+	// both ends of the `>`: what the head block spent is in, what the horizon block spent is not
+	// (unless a later block spent the same position again, which cannot happen for a position)
+	if let Ok(sp) = batch.get_spent_index(&head.hash()) {
+		*stats.entry("protect:positions-spent-by-the-head-block".into()).or_insert(0) += sp.len() as u64;
+		for cp in &sp {
+			if !set.contains(&(cp.pos as u32)) {
+				out.raw(&format!("#ORACLE-FAIL C08 position {} spent by the head block is missing from the bitmap compaction would protect (subject {})", cp.pos, name));
+			}
+		}
+	}
+	if horizon.height > 0 {
+		if let Ok(sp) = batch.get_spent_index(&horizon.hash()) {
+			*stats.entry("protect:positions-spent-by-the-horizon-block".into()).or_insert(0) += sp.len() as u64;
+			for cp in &sp {
+				if set.contains(&(cp.pos as u32)) {
+					out.raw(&format!("#ORACLE-FAIL C08 position {} spent by the horizon block itself is in the bitmap of positions spent ABOVE the horizon (subject {})", cp.pos, name));
+				}
+			}
+		}
+	}
 }
